@@ -7,7 +7,7 @@ import json
 # positions of type arguments
 TYPE_POS = {'PUSH': [0], 'NIL': [0], 'NONE': [0], 'LEFT': [0], 'RIGHT': [0], 'EMPTY_SET': [0], 'EMPTY_MAP': [0, 1], 'EMPTY_BIG_MAP': [0, 1],
             'LAMBDA': [0, 1], 'CAST': [0], 'UNPACK': [0], 'CONTRACT': [0]}
-NAMES = ['a', 'b', 'x', 'owner', 'amount_1', 'k_1', 'Z', 'default', 'v0', 'left', 'Pair', 'int']
+NAMES = ['a', 'b', 'x', 'owner', 'amount_1', 'k_1', 'Z', 'default', 'v0', 'left', 'Pair', 'int', 'pct%', 'amount%mutez', 'a@b', 'x.y']
 VAR_OK = {'PUSH', 'CAR', 'CDR', 'PAIR', 'GET', 'UPDATE', 'SOME', 'NIL', 'NONE', 'LEFT', 'RIGHT', 'CONS', 'DUP', 'LAMBDA', 'EXEC', 'EMPTY_MAP',
           'EMPTY_SET', 'COMPARE', 'MEM', 'SIZE', 'ADD', 'SUB', 'MUL', 'EDIV', 'ABS', 'NEG', 'INT', 'ISNAT', 'NOT', 'AND', 'OR', 'XOR', 'LSL', 'LSR',
           'EQ', 'NEQ', 'LT', 'GT', 'LE', 'GE', 'CONCAT', 'SLICE', 'UNIT', 'AMOUNT', 'BALANCE', 'NOW', 'LEVEL', 'SENDER', 'SOURCE', 'SELF_ADDRESS',
